@@ -3,11 +3,16 @@ C02  Exact step set: no spurious, duplicated or out-of-order steps.
 
 Proved (safety half, all `WFCfg` configurations, behaviours, interleavings): the steps a simulator
 begins are strictly increasing in tiered time (sub-steps of one time in order, no time twice), lie
-in `[0, until)`, and each was the earliest scheduled step at the moment it began.
+in `[0, until)`, and each was the earliest scheduled step at the moment it began; and (`only_demanded_steps`) every step begun
+or scheduled was demanded somewhere in the run's own history: it is in the initial schedule (time 0 /
+initial events), or it is the next step the simulator itself returned from a step before `until`, or it
+is the delayed output time of an output that another simulator's step delivered to one of its trigger
+connections.
 NOT proved (liveness half, `complete`): that every demanded time is eventually executed; it needs
 the termination argument of C05 and is covered by the correspondence runs and the monitor only.
 -/
 import MosaikProofs.Sched.Errors
+import MosaikProofs.Sched.Sources
 namespace Mosaik.C02
 open Mosaik
 
@@ -114,5 +119,70 @@ theorem scheduled_not_skipped {cfg : Cfg} (hw : WFCfg cfg) {s : State} (hr : Rea
     (p : Sid) (hp : p < cfg.n) :
     (∀ t ∈ (s.sims p).next, (s.sims p).progress ≤ t) ∧ (∀ b ∈ (s.sims p).begun, ∀ t ∈ (s.sims p).next, b < t) :=
   ⟨((reach_good hw hr hnf).1 p hp).le_next, ((reach_good hw hr hnf).1 p hp).begun_lt_next⟩
+
+/-- a demand raised by action `a` fired in state `s0`: a returned next step or a delivered trigger -/
+def Demand (cfg : Cfg) (s0 : State) (a : Action) (b : Sid) (x : TT) : Prop := SelfSrc cfg s0 a b x ∨ TrigSrc cfg s0 a b x
+
+/-- the demand was raised at some point of the run `as` started in `s` -/
+def DemandedIn (cfg : Cfg) (s : State) (as : List Action) (b : Sid) (x : TT) : Prop :=
+  ∃ as1 a as2 s0, as = as1 ++ a :: as2 ∧ exec cfg s as1 = some s0 ∧ Demand cfg s0 a b x
+
+theorem DemandedIn.cons {cfg : Cfg} {s s1 : State} {a : Action} {as : List Action} {b : Sid} {x : TT}
+    (hs : step cfg s a = some s1) (h : DemandedIn cfg s1 as b x) : DemandedIn cfg s (a :: as) b x := by
+  obtain ⟨as1, a', as2, s0, he, hx, hd⟩ := h
+  exact ⟨a :: as1, a', as2, s0, by rw [he]; rfl, by simp only [exec, hs]; exact hx, hd⟩
+
+/-- along a run, whatever is scheduled or has begun was so before or was demanded during the run -/
+theorem demanded_from {cfg : Cfg} (hw : WFCfg cfg) : ∀ (as : List Action) {s s' : State}, Reach cfg s →
+    exec cfg s as = some s' → s'.failed = none → ∀ b x, (x ∈ (s'.sims b).next ∨ x ∈ (s'.sims b).begun) →
+      (x ∈ (s.sims b).next ∨ x ∈ (s.sims b).begun) ∨ DemandedIn cfg s as b x
+  | [], s, s', _, h, _ => by
+    simp [exec] at h; subst h
+    intro b x hx; exact Or.inl hx
+  | a :: as, s, s', hr, h, hnf => by
+    simp only [exec] at h
+    cases hs : step cfg s a with
+    | none => simp [hs] at h
+    | some s1 =>
+      rw [hs] at h
+      have hnf1 := exec_cons_not_failed hs h hnf
+      intro b x hx
+      rcases demanded_from hw as (Reach.step hr hs) h hnf b x hx with h1 | h1
+      · -- in `s1`: trace one step back
+        have hnext : x ∈ (s1.sims b).next → (x ∈ (s.sims b).next ∨ x ∈ (s.sims b).begun) ∨ DemandedIn cfg s (a :: as) b x := by
+          intro hn
+          rcases step_sources hs b x hn with h2 | h2 | h2 | ⟨t, _, hrt⟩
+          · exact Or.inl (Or.inl h2)
+          · exact Or.inr ⟨[], a, as, s, rfl, rfl, Or.inl h2⟩
+          · exact Or.inr ⟨[], a, as, s, rfl, rfl, Or.inr h2⟩
+          · rw [hw.noRt] at hrt; cases hrt
+        rcases h1 with h1 | h1
+        · exact hnext h1
+        · rcases step_frame hw (reach_good hw hr) hs hnf1 with hl | ⟨q, c, _, _, _, _, _, hhead, _, _, _, hbeg, _, hoth⟩
+          · rw [hl.begun] at h1; exact Or.inl (Or.inr h1)
+          · by_cases hbq : b = q
+            · subst hbq
+              rw [hbeg] at h1
+              rcases List.mem_cons.mp h1 with rfl | h1
+              · exact Or.inl (Or.inl (List.mem_of_mem_head? hhead))
+              · exact Or.inl (Or.inr h1)
+            · rw [hoth b hbq] at h1; exact Or.inl (Or.inr h1)
+      · exact Or.inr (h1.cons hs)
+
+/-- **C02, "and at no others".**  Every step a simulator has begun (or has scheduled) in a run from the
+initial state was demanded: it belongs to the initial schedule, or the demand was raised by an action of
+this very run — the simulator's own returned next step (`SelfSrc`: an integer later than the step's time
+and before `until`) or an output delivered to one of its trigger connections (`TrigSrc`: the delayed
+output time of an output present in another step's data). -/
+theorem only_demanded_steps {cfg : Cfg} (hw : WFCfg cfg) (as : List Action) {s : State}
+    (he : exec cfg (initState cfg) as = some s) (hnf : s.failed = none) (b : Sid) (x : TT)
+    (hx : x ∈ (s.sims b).begun ∨ x ∈ (s.sims b).next) :
+    x ∈ (cfg.sim b).next0 ∨ DemandedIn cfg (initState cfg) as b x := by
+  rcases demanded_from hw as Reach.init he hnf b x hx.symm with h | h
+  · left
+    rcases h with h | h
+    · simpa [initState, initSim] using h
+    · simp [initState, initSim] at h
+  · exact Or.inr h
 
 end Mosaik.C02
